@@ -344,7 +344,7 @@ def _complete_utility_data(
         if (
             utility.type in ["Cold", "Both"]
             and utility.active
-            and max(utility.t_supply, utility.t_target) - utility.dt_cont <= CU_T_max
+            and min(utility.t_supply, utility.t_target) + utility.dt_cont <= CU_T_max
         ):
             addDefaultCU = False
     return utilities, addDefaultHU, addDefaultCU
